@@ -109,15 +109,19 @@ Proof. vm_compute. reflexivity. Qed.
 Lemma unfitted_ok_today : unfitted_ok c11_traces = true.
 Proof. vm_compute. reflexivity. Qed.
 
-Lemma cell_ok_all : forall e k a f s, In e c11_traces -> cell_ok e k a f s = true.
+Lemma table_ok_sound : forall tr, table_ok tr = true ->
+  forall e k a f s, In e tr -> cell_ok e k a f s = true.
 Proof.
-  intros e k a f s He. pose proof table_ok_today as T. unfold table_ok in T.
+  intros tr T e k a f s He. unfold table_ok in T.
   rewrite forallb_forall in T. specialize (T e He).
   rewrite forallb_forall in T. specialize (T k (all_kinds_complete k)).
   rewrite forallb_forall in T. specialize (T a (all_adesc_complete a)).
   rewrite forallb_forall in T. specialize (T f (all_bool_complete f)).
   rewrite forallb_forall in T. exact (T s (all_bool_complete s)).
 Qed.
+
+Lemma cell_ok_all : forall e k a f s, In e c11_traces -> cell_ok e k a f s = true.
+Proof. exact (table_ok_sound c11_traces table_ok_today). Qed.
 
 Lemma outcome_is_ve_eq : forall o, outcome_is_ve o = true -> o = RaisedVE.
 Proof. destruct o; simpl; intro H; try discriminate; reflexivity. Qed.
@@ -191,32 +195,48 @@ Lemma refuted_gridsearch_unfitted_X :
 Proof. vm_compute. reflexivity. Qed.
 
 (* every listed exception is a genuine failure of the extracted traces (the list is tight) *)
-Lemma exceptions_genuine_all : forall x, In x exceptions ->
-  exists e a s, In e c11_traces /\ exc_entry_matches x e = true /\ applicable e (x_kind x) = true /\
+Lemma exceptions_genuine_sound : forall tr, exceptions_genuine tr = true -> forall x, In x exceptions ->
+  exists e a s, In e tr /\ exc_entry_matches x e = true /\ applicable e (x_kind x) = true /\
     state_ok e (x_fitted x) = true /\ a_corrupted (x_kind x) a = true /\ opt_match cont_eqb (x_cont x) (a_cont a) = true /\
     run_atrace (e_actions e) a (x_fitted x) s <> RaisedVE.
 Proof.
-  intros x Hx. pose proof exceptions_genuine_today as G. unfold exceptions_genuine in G.
+  intros tr G x Hx. unfold exceptions_genuine in G.
   rewrite forallb_forall in G. specialize (G x Hx). unfold exc_genuine in G.
   apply existsb_exists in G. destruct G as [e [He G]].
   destruct (exc_entry_matches x e && applicable e (x_kind x) && state_ok e (x_fitted x)) eqn:E1; [|discriminate].
   apply existsb_exists in G. destruct G as [a [_ G]].
   destruct (a_corrupted (x_kind x) a && opt_match cont_eqb (x_cont x) (a_cont a)) eqn:E2; [|discriminate].
   apply existsb_exists in G. destruct G as [s [_ G]].
-  rewrite !andb_true_iff in E1, E2. destruct E1 as [[M Ap] St]. destruct E2 as [Co Ct].
+  apply andb_true_iff in E1. destruct E1 as [E1 St]. apply andb_true_iff in E1. destruct E1 as [M Ap].
+  apply andb_true_iff in E2. destruct E2 as [Co Ct].
   exists e, a, s. repeat split; try assumption.
   intro Hve. rewrite Hve in G. discriminate.
 Qed.
 
+Lemma exceptions_genuine_all : forall x, In x exceptions ->
+  exists e a s, In e c11_traces /\ exc_entry_matches x e = true /\ applicable e (x_kind x) = true /\
+    state_ok e (x_fitted x) = true /\ a_corrupted (x_kind x) a = true /\ opt_match cont_eqb (x_cont x) (a_cont a) = true /\
+    run_atrace (e_actions e) a (x_fitted x) s <> RaisedVE.
+Proof. exact (exceptions_genuine_sound c11_traces exceptions_genuine_today). Qed.
+
 (* ---------------------------------------------------------------- unfitted models *)
+Lemma unfitted_ok_sound : forall tr, unfitted_ok tr = true -> forall e a s, In e tr -> e_fitting e = false ->
+  (if a_valid a then outcome_is_ae (run_atrace (e_actions e) a false s)
+   else outcome_is_ae (run_atrace (e_actions e) a false s) || outcome_is_ve (run_atrace (e_actions e) a false s)) = true.
+Proof.
+  intros tr T e a s He Hf. unfold unfitted_ok in T.
+  rewrite forallb_forall in T. specialize (T e He). rewrite Hf in T.
+  apply orb_true_iff in T. destruct T as [T|T]; [discriminate|].
+  rewrite forallb_forall in T. specialize (T a (all_adesc_complete _)).
+  rewrite forallb_forall in T. exact (T s (all_bool_complete _)).
+Qed.
+
 Lemma unfitted_attribute_error : forall e d skip, In e c11_traces -> e_fitting e = false ->
   (valid d -> run_trace (e_actions e) d false skip = RaisedAE) /\
   (run_trace (e_actions e) d false skip = RaisedAE \/ run_trace (e_actions e) d false skip = RaisedVE).
 Proof.
-  intros e d skip He Hf. pose proof unfitted_ok_today as T. unfold unfitted_ok in T.
-  rewrite forallb_forall in T. specialize (T e He). rewrite Hf in T. simpl in T.
-  rewrite forallb_forall in T. specialize (T (abstract d) (all_adesc_complete _)).
-  rewrite forallb_forall in T. specialize (T skip (all_bool_complete _)).
+  intros e d skip He Hf.
+  pose proof (unfitted_ok_sound c11_traces unfitted_ok_today e (abstract d) skip He Hf) as T.
   unfold run_trace. split.
   - intro Hv. rewrite (valid_abstract d Hv) in T. apply outcome_is_ae_eq; exact T.
   - destruct (a_valid (abstract d)).
